@@ -168,6 +168,9 @@ def gen_shape(rng, sid, fn, force=None):
     else:
         nse = force.get('nse', rng.choice([0, 0, 1, 1, 2, 3]))
     d['ses'] = [rng.random() < 0.35 for _ in range(nse)]  # True = LR_
+    # plain clauses that use the captured copy of a class-type local non-const-ly (std::move(local))
+    d['se_take'] = [(not lr) and rng.random() < 0.3 for lr in d['ses']]
+    d['ret_take'] = rng.random() < 0.3
     # return
     if forbidding:
         rk = 'NONE'
@@ -245,24 +248,28 @@ def render(d, scoped=False):
             with_inners.append(inner)
         elif c == 'S':
             lr = d['ses'][k]
-            s += ('.LR_SIDE_EFFECT(sim::se(x.id, %d, x.snap, %s))' if lr else '.SIDE_EFFECT(sim::se(x.id, %d, x.snap, %s))') % (k, addr)
+            if d['se_take'][k]:
+                s += '.SIDE_EFFECT(sim::se(x.id, %d, sim::snapm(x.snap, x.id, std::move(x.str)), %s))' % (k, addr)
+            else:
+                s += ('.LR_SIDE_EFFECT(sim::se(x.id, %d, x.snap, %s))' if lr else '.SIDE_EFFECT(sim::se(x.id, %d, x.snap, %s))') % (k, addr)
         elif c == 'R':
             rk = d['rk']
+            snap_plain = 'sim::snapm(x.snap, x.id, std::move(x.str))' if d['ret_take'] else 'x.snap'
             s += {
-                'VAL': '.RETURN(sim::ret(x.id, x.snap, %s))' % addr,
+                'VAL': '.RETURN(sim::ret(x.id, %s, %s))' % (snap_plain, addr),
                 'LRVAL': '.LR_RETURN(sim::ret(x.id, x.snap, %s))' % addr,
-                'THROW_STD': '.THROW(sim::thr_std(x.id, x.snap))',
+                'THROW_STD': '.THROW(sim::thr_std(x.id, %s))' % snap_plain,
                 'THROW_INT': '.THROW(sim::thr_int(x.id, x.snap))',
                 'REF_PARAM': '.LR_RETURN(sim::retref(x.id, x.snap, _1, %s))' % addr,
                 'REF_CELL': '.LR_RETURN(sim::retref(x.id, x.snap, *x.cell, %s))' % addr,
                 'CREF_PARAM': '.RETURN(sim::retcref(x.id, x.snap, _1, %s))' % addr,
                 'CREF_CELL': '.LR_RETURN(sim::retref(x.id, x.snap, *x.cell, %s))' % addr,
                 'CREF_CAPT': '.RETURN(sim::retcref(x.id, x.snap, x.v[0], %s))' % addr,
-                'STR': '.RETURN(sim::rets(x.id, x.snap, %s))' % addr,
+                'STR': '.RETURN(sim::rets(x.id, %s, %s))' % (snap_plain, addr),
                 'LRSTR': '.LR_RETURN(sim::rets(x.id, x.snap, %s))' % addr,
                 'STR_PARAM': '.RETURN(sim::retsr(x.id, x.snap, _1, %s))' % addr,
                 'LRSTR_VAR': '.LR_RETURN(sim::retsr(x.id, x.snap, x.str, %s))' % addr,
-                'PAIR': '.RETURN(sim::retp(x.id, x.snap, %s))' % addr,
+                'PAIR': '.RETURN(sim::retp(x.id, %s, %s))' % (snap_plain, addr),
                 'LRPAIR_VAR': '.LR_RETURN(sim::retpr(x.id, x.snap, x.pr, %s))' % addr,
             }[rk]
         elif c == 'T':
